@@ -104,7 +104,13 @@ def in_place_of(params):
 
 def _public_names(mod):
     if hasattr(mod, "__all__"):
-        return list(mod.__all__)
+        names = list(mod.__all__)
+        if mod.__name__.startswith("xgi.stats."):
+            # the stat dispatcher resolves `H.nodes.<name>` with getattr on these modules: every function defined there
+            # is reachable by name, listed in __all__ or not
+            names += [n for n, f in vars(mod).items() if inspect.isfunction(f) and f.__module__ == mod.__name__
+                      and not n.startswith("_") and n not in names]
+        return names
     if hasattr(mod, "__path__"):              # a package re-exporting with `from .x import *`
         return [n for n in dir(mod) if not n.startswith("_")]
     return [n for n in dir(mod) if not n.startswith("_") and getattr(getattr(mod, n), "__module__", None) == mod.__name__]
@@ -401,7 +407,6 @@ def extract():
     return entries
 
 
-
 def table(entries=None):
     """plain-data form: [{name, kind, has_in_place, default_in_place, doc_mutator, ast_writes, writes, how}]"""
     entries = entries if entries is not None else extract()
@@ -435,8 +440,8 @@ def render(tab):
     return "\n".join(lines) + "\n"
 
 
-def write():
-    tab = table()
+def write(entries=None):
+    tab = table(entries)
     path = os.path.join(LEAN, "XgiModel", "Generated", "ApiTable.lean")
     body = render(tab)
     if not os.path.exists(path) or open(path).read() != body:
